@@ -18,7 +18,7 @@ PROPERTIES = {
         not_reached=["geometry kernels behind the requirement predicates (C04/C17)"],
     ),
     "C19": dict(
-        modules=["distributions", "invocables", "vector_codec"],
+        modules=["distributions", "invocables", "vector_codec", "compiler_do"],
         level="proof",
         claim="enabled-set computation, weighted pick as an RNG-trace contract (probability proportional to weight among the enabled items under A3), shuffle exactly-once loop",
         note="A3: laws of random.choices/randint; number of listed items bounded by 3 in the pick contract (symbolic weights and enabledness)",
